@@ -616,11 +616,12 @@ class Exec:
         if fn == 'numpy.isscalar' and len(n.args) == 1:
             v = self.ev(n.args[0]); return isinstance(v, (IntV, Cell))
         if fn == 'numpy.asarray' and len(n.args) == 1: return self.ev(n.args[0])
-        if fn == 'numpy.zeros' and n.args and alg.name != 'mat':
+        if fn in ('numpy.zeros', 'numpy.empty') and n.args and alg.name != 'mat':
             shp = self.ev(n.args[0])
             if isinstance(shp, tuple) and shp and shp[0] == 'shape' and isinstance(shp[1], (View, Lazy)):
-                bid = st.new_base(shp[1].length, z3.K(I, alg.zero), name='zeros'); return View(bid, z3.IntVal(0), 1, shp[1].length)
-            raise Undecided('numpy.zeros of a non-array shape')
+                # numpy.empty: arbitrary contents (a fresh array constant)
+                bid = st.new_base(shp[1].length, z3.K(I, alg.zero) if fn == 'numpy.zeros' else None, name=fn.split('.')[-1]); return View(bid, z3.IntVal(0), 1, shp[1].length)
+            raise Undecided('%s of a non-array shape' % fn)
         if fn == 'math.factorial':
             v = self.ev(n.args[0]); return IntV(FACT(v.t))
         if fn == 'math.sqrt':
@@ -640,7 +641,7 @@ class Exec:
             tgt = n.func.value; val = self.ev(n.args[0])
             c = Cell(alg.of_int(val.t) if isinstance(val, IntV) else val.t)
             loc = self.ev(tgt)
-            if isinstance(loc, Cell): self.store(tgt, c)
+            if isinstance(loc, Cell): self.store_out(tgt, c)
             else: self.store_view(loc, Lazy(loc.length, lambda i: c.t))
             return None
         if fn == 'numpy.sum': return self.np_sum(n, kw)
@@ -661,9 +662,9 @@ class Exec:
             return self.map2(a, b, lambda x, y: z3.If(cmpf(x, y), alg.one, alg.zero))
         if fn == 'numpy.logical_and':
             a, b = self.ev(n.args[0]), self.ev(n.args[1]); return self.map2(a, b, lambda x, y: alg.mul(x, y))
-        if fn in ('numpy.multiply', 'numpy.add', 'numpy.subtract', 'numpy.divide'):
+        if fn in ('numpy.multiply', 'numpy.add', 'numpy.subtract', 'numpy.divide', 'numpy.true_divide'):
             a, b = self.ev(n.args[0]), self.ev(n.args[1])
-            op = {'numpy.multiply': ast.Mult(), 'numpy.add': ast.Add(), 'numpy.subtract': ast.Sub(), 'numpy.divide': ast.Div()}[fn]
+            op = {'numpy.multiply': ast.Mult(), 'numpy.add': ast.Add(), 'numpy.subtract': ast.Sub(), 'numpy.divide': ast.Div(), 'numpy.true_divide': ast.Div()}[fn]
             return self.maybe_out(kw, self.binop(op, a, b))
         if fn == 'numpy.clip':
             x, lo, hi = [self.ev(a) for a in n.args[:3]]
@@ -742,12 +743,22 @@ class Exec:
         if is_scalar(a): f = self.st.elem(b); return Lazy(b.length, lambda i: g(alg.of_int(a.t), f(i)))
         if is_scalar(b): f = self.st.elem(a); return Lazy(a.length, lambda i: g(f(i), alg.of_int(b.t)))
         fa, fb = self.st.elem(a), self.st.elem(b); return Lazy(a.length, lambda i: g(fa(i), fb(i)))
+    def store_out(self, node, val):
+        """`out=node` / node.fill(): an in-place write.  A name bound to a row view (y_d = y[d]) writes through to the array."""
+        st = self.st
+        if isinstance(node, ast.Name) and isinstance(st.env.get(node.id), CellRef):
+            cur = st.env[node.id]
+            if not cur.sure: raise Undecided('in-place write through %s: view or scalar copy depends on the array rank' % node.id)
+            if not is_scalar(val): raise Undecided('array stored into a row view')
+            arr, L = st.heap[cur.base]; t = val.t if isinstance(val, Cell) else st.alg.of_int(val.t)
+            st.heap[cur.base] = (z3.Store(arr, z3.simplify(cur.idx), t), L); st.written.add(cur.base); return
+        self.store(node, val)
     def maybe_out(self, kw, val):
         if 'out' in kw:
             o = self.ev(kw['out'])
             if o is None: return self.materialize(val) if not is_scalar(val) else val
             if isinstance(o, View): self.store_view(o, val); return o
-            self.store(kw['out'], val); return self.ev(kw['out'])
+            self.store_out(kw['out'], val); return self.ev(kw['out'])
         return val
     def materialize(self, v):
         st = self.st
@@ -782,7 +793,7 @@ class Exec:
             if isinstance(v, Cell): raise Undecided('numpy.sum of a cell')
             f = st.elem(v); res = Cell(st.reg.Sum(z3.IntVal(0), v.length - 1, f))
         if 'out' in kw:
-            self.store(kw['out'], res); return None
+            self.store_out(kw['out'], res); return None
         return res
 
     def _check_summand_safety(self, a, var, lo, hi):
@@ -859,6 +870,7 @@ class Exec:
             if isinstance(base, Cell) and isinstance(target.value, ast.Name):
                 elts = target.slice.elts if isinstance(target.slice, ast.Tuple) else [target.slice]
                 if all(self._trailing_ok(e) for e in elts) and is_scalar(val):
+                    if isinstance(base, CellRef): self.store_out(target.value, val); return          # name[...] = v on a row view writes into the array
                     st.env[target.value.id] = Cell(val.t if isinstance(val, Cell) else alg.of_int(val.t)); return
                 raise Undecided('partial store into a matrix cell')
             if not isinstance(base, View): raise Undecided('store into non-array')
